@@ -138,7 +138,7 @@ func (c *caseRun) raceAct(plan []*planned, a action) {
 		c.mu.Unlock()
 	case "terminate":
 		t0 := c.now()
-		err, blocked := guarded(func() error {
+		err, blocked := guardedFor(termGuard, func() error {
 			return c.sup.Terminate(context.Background(), &model.TerminateRequest{Name: c.nameStr(name), Domain: "runtime"})
 		})
 		t1 := c.now()
@@ -192,7 +192,7 @@ func (c *caseRun) raceKill(name int, p *proc, dl string) {
 		aliveAtRet = p.alive()
 		pid := p.pid
 		c.mu.Unlock()
-		if ret == "ok" && pid != 0 {
+		if ret == "ok" && pid != 0 && c.now()-p.execT1 < 30*time.Second {
 			group = strconv.Itoa(len(waitGroupDead(pid, groupGrace)))
 		}
 	}
